@@ -5,6 +5,7 @@ CONSTANTS
   ScratchVals = {0}
   ArgCounts = {0, 1, 2, 3, 4, 5, 6, 7, 8, 9, 11, 16}
   SingleCounts = {1, 2, 4, 5, 7, 9, 11, 16}
+  HistSites = {2, 3}
   RotStep = 2
   Emit = TRUE
   Strict = FALSE
